@@ -1,5 +1,6 @@
 """C06 — every message handed to the network driver is exactly one well-formed line."""
 import json, os, sys, threading, time
+import re
 import boot
 from lib import wire
 
@@ -379,11 +380,11 @@ def _fail(ctx, B, inv, hist, clause, detail, seen, key):
     seen[k] = seen.get(k, 0) + 1
     if seen[k] > 2:
         return
-    inp = {'op': 'live', 'clause': clause, 'inv': inv, 'history': []}
-    # does it need the history of this plugin?  try on the current bot without replaying it
-    again = [c for c, _ in live_check(B, inv)]
-    if clause not in again:
-        inp['history'] = list(hist)[-400:]
+    # the bot's state (stored topics, notes, aliases ...) may carry the offending text: keep the plugin's history for the replay
+    inp = {'op': 'live', 'clause': clause, 'inv': inv, 'history': list(hist)[-400:]}
+    mch = re.search(r'\((\d+) characters\)', detail)
+    if mch:
+        inp['chars'] = int(mch.group(1))      # length in characters of the offending line (without tags)
     ctx.fail(inp, '%s: %s' % (clause, detail))
 
 
@@ -850,7 +851,8 @@ def _surrogate(x):
 
 CLASSES = {
     # the byte-length clause fails and the input carries multi-byte text (truncation / length checks count characters)
-    'multibyte_overlength': lambda inp: inp.get('clause') == 'bytes' and _nonascii(inp),
+    # (either typed in the invocation, or held in the bot's state: the line is within 512 CHARACTERS and only its bytes exceed)
+    'multibyte_overlength': lambda inp: inp.get('clause') == 'bytes' and (_nonascii(inp) or inp.get('chars', 10 ** 6) <= MAXB),
     # a lone surrogate (typed as a quoted \\udXXX escape or raw) reaches a plugin-built message: the line cannot be encoded
     'unencodable_surrogate': lambda inp: inp.get('clause') == 'encode' and _surrogate(inp),
 }
